@@ -531,6 +531,23 @@ func (a *Adv) AuthProbes(perTxn int) int {
 		if label != "" && a.emit(blk, label, "reject", nil, nil) {
 			n++
 		}
+		// a revision that names other unlock conditions AND proposes their hash as the contract's new unlock hash, signed
+		// by those conditions' key: the conditions revealed must be the ones the contract commits to now, whatever the
+		// revision would like them to become
+		if len(orig.FileContractRevisions) > 0 {
+			blk := CloneBlock(a.Honest)
+			x := &blk.Transactions[ti]
+			sub := types.StandardUnlockConditions(Pub(3))
+			if sub.UnlockHash() == x.FileContractRevisions[0].UnlockConditions.UnlockHash() {
+				sub = types.StandardUnlockConditions(Pub(4))
+			}
+			x.FileContractRevisions[0].UnlockConditions = sub
+			x.FileContractRevisions[0].FileContract.UnlockHash = sub.UnlockHash()
+			SignV1(a.CS, x, partial)
+			if a.emit(blk, "v1/substitute/revision-conditions-matching-the-proposed-unlock-hash", "reject", nil, nil) {
+				n++
+			}
+		}
 	}
 	// ---------------- v2
 	for ti := range a.Honest.V2Transactions() {
